@@ -25,6 +25,14 @@ def monitor(case, line):
             in_close_phase = tok.startswith("c6,")
         elif tok[0] in "wu":
             in_close_phase = False
+        if tok == "!drainhang":
+            return ("after uv_close() on every handle uv_run(UV_RUN_DEFAULT) did not return within 4000 poll phases: "
+                    "the loop stays alive (or a closed handle keeps firing)")
+        if tok.startswith("!reqs"):
+            n, lo, hi = tok[5:].split(",")
+            return ("loop counts %s active request(s) but the requests whose completion is outstanding number between "
+                    "%s and %s (submitted with a callback that has not run, or without one and not yet through a poll "
+                    "phase)" % (n, lo, hi))
         if tok[0] != "o":
             continue
         nact, nreq, flags = lc.parse_obs(tok)
